@@ -201,14 +201,10 @@ def run(rc):
 
 
 def replay(data):
-    d = data['detail']
-    import tatsu
-    exp = d['grammar']
-    text = ('top: v:start rest:REST\n\nstart: ' + exp + '\n\n' + '\n\n'.join(gs.render_rule(r) for r in HELPERS)
-            + '\n\nREST: /[\\s\\S]*/\n')
-    model = tatsu.compile(text)
-    print(text)
-    print('input:', repr(d['input']))
-    print('got  :', impl.parse(model, d['input']))
-    print('want :', d.get('want'))
-    return 1
+    from ..replay import replay_grammar_case
+
+    def grammar_of(d):
+        exp = d['grammar']
+        return ('top: v:start rest:REST ;\n\nstart: ' + exp + ' ;\n\n' + '\n\n'.join(gs.render_rule(r) for r in HELPERS)
+                + '\n\nREST: /[\\s\\S]*/ ;\n')
+    return replay_grammar_case(data, grammar_of)
